@@ -203,7 +203,9 @@ class Runner(object):
         cls = getattr(mod, cfg['algo'] + '_cache')
         kw = {'cache': self._make_cache(), 'keymap': gen.build_keymap(klepto, cfg['keymap'])}
         if cfg.get('ignore') is not None:
-            kw['ignore'] = dec(cfg['ignore'])
+            ign = dec(cfg['ignore'])
+            # a single name or index may be given bare (ignore='x', ignore=0), as the docs allow
+            kw['ignore'] = ign[0] if (cfg.get('ignore_scalar') and len(ign) == 1) else ign
         if cfg.get('tol') is not None:
             kw['tol'] = cfg['tol']
             kw['deep'] = bool(cfg.get('deep'))
@@ -1011,6 +1013,7 @@ def gen_case(rng, focus, nops=None):
         names = [n for kd, n in gen.sig_names(sig) if kd == 'pos']
         if names and rng.random() < 0.3:
             cfg['ignore'] = enc([rng.choice(names + list(range(len(names))))])
+            cfg['ignore_scalar'] = rng.random() < 0.4
     if cfg.get('tol') is not None and b.get('direct') and b['kind'] == 'dir':
         # rounding makes ==-equal keys of different type (round(1.005, 0) == 1.0 == 1): a dict merges them, a directory
         # archive used *as* the cache names them apart - the harness's dict snapshots cannot represent that
@@ -1079,6 +1082,8 @@ def gen_case(rng, focus, nops=None):
         # un-keyable arguments: the safe decorators must degrade to plain evaluation
         hostile = [[1, 2], {'a': 1}, {'__s__': [1, 2]}, {'__h__': 'badrepr'}, {'__h__': 'badhash'},
                    {'__h__': 'badreduce'}, {'__d__': [[1, 2]]}, [[1], [2]]]
+        if focus == 'C16':
+            hostile.append({'__deep__': 6000})     # nested far deeper than repr / pickle / hash can recurse
         for _ in range(rng.choice([1, 2, 3])):
             c = gen.gen_call(rng, sig, [gen.Pre(h) for h in rng.sample(hostile, 3)] + universe[:2])
             pool.append(c)
@@ -1265,6 +1270,17 @@ def _short(o):
 
 def run_case(case, prop):
     """run one case with all monitors (and the twins its focus needs); return (runner, violations)"""
+    cwd0 = os.getcwd()
+    r1, viol = _run_case(case, prop)
+    if os.getcwd() != cwd0:
+        # (a process that is left in another directory resolves every relative archive name elsewhere)
+        viol.append({'property': prop, 'kind': 'working-directory-changed', 'mech': [], 'case': case, 'step': -1,
+                     'msg': 'the history left the process in %s (it started in %s)' % (os.getcwd(), cwd0)})
+        os.chdir(cwd0)
+    return r1, viol
+
+
+def _run_case(case, prop):
     with Scratch('cm') as root:
         os.makedirs(os.path.join(root, 'a'))
         r1 = Runner(case, os.path.join(root, 'a'))
